@@ -9,6 +9,7 @@ import (
 	"fmt"
 	"os"
 	"runtime"
+	"strings"
 	"sync"
 	"testing"
 	"time"
@@ -202,35 +203,88 @@ func runCase(c *props.Case) (result string) {
 
 // coldStartBurst: the very first thing a fresh process does is to let eight independent callers use
 // the library at the same time on inputs that touch many constructs, so that anything initialised
-// lazily on first use (package-level tables, caches) is initialised concurrently.
+// lazily on first use or kept in package-level state (tables, caches, counters, memos) is used
+// concurrently. Every result is compared with the result of the same call made alone afterwards.
 func coldStartBurst() {
 	fmt.Fprintf(os.Stderr, "CASE -2\n")
+	nest := strings.Repeat("$(", 40) + "a" + strings.Repeat(")", 40)
 	progs := []string{
 		"f() { cat <<E | while read x; do case $x in a) b;; esac; done; }\nbody $y $(z) `w`\nE\n",
 		"g() ( if a; then b; elif c; then d; else e; fi )\n",
 		"for i in a b; do until x; do y; done; done 2>&1 >>f <<-X\n\tq\n\tX\n",
 		"break() { a; }\n", "x=1 y=$((x+08)) cmd \"${z:-$(a)}\" 'q' \\n # c\n", "h () { (( n++ )); } && ! k | l &\n",
+		"echo " + nest + "\n", "a | | $(", "cat <<E\n" + nest + "\nE\n",
 	}
 	exprs := []string{"(x = 1) + y + 1", "z + 2", "1/0", "x++ + ++x", "y ? 08 : 1"}
+	// a small directory tree for pathname expansion
+	for d := 0; d < 10; d++ {
+		os.MkdirAll(fmt.Sprintf("d%d", d), 0o755)
+		for f := 0; f < 30; f++ {
+			os.WriteFile(fmt.Sprintf("d%d/f%d", d, f), nil, 0o644)
+		}
+	}
+	wordSrc := []string{"${V%%X*}", "${V#a?}", "${W##*/}", "${V%b*}", "${V%%Y*}", "${W#/?}", "~root/x", "~nobody", "~daemon/y", "*/*", "d?/f1*", "$((n+1))", "d[0-4]/f2?"}
+	var words []ast.Word
+	for _, w := range wordSrc {
+		cmd, _, err := parser.ParseCommand("w", ": "+w)
+		if err != nil {
+			continue
+		}
+		words = append(words, cmd.(*ast.Cmd).Expr.(*ast.SimpleCmd).Args[1])
+	}
+	const G = 8
+	one := func(g int) []string {
+		var out []string
+		for i := range progs {
+			out = append(out, props.SoloDump(progs[(i+g)%len(progs)]))
+		}
+		env := interp.NewExecEnv("sim")
+		env.Set("y", []string{"abc", "2"}[g%2])
+		env.Set("z", "zz")
+		for i := range exprs {
+			n, err := env.Eval(exprs[(i+g)%len(exprs)])
+			out = append(out, fmt.Sprint(n, err))
+		}
+		env.Set("V", []string{"aXbYbZ", "abXcYd", "aaXX"}[g%3])
+		env.Set("W", "/a/b/c")
+		env.Set("n", fmt.Sprint(g))
+		for rep := 0; rep < 30; rep++ {
+			for i := range words {
+				f, err := env.Expand(words[(i+g)%len(words)], 0)
+				out = append(out, fmt.Sprintf("%q %v", f, err))
+			}
+		}
+		return out
+	}
+	res := make([][]string, G)
 	var wg sync.WaitGroup
 	start := make(chan struct{})
-	for g := 0; g < 8; g++ {
+	for g := 0; g < G; g++ {
 		wg.Add(1)
 		go func(g int) {
 			defer wg.Done()
-			defer func() { recover() }()
+			defer func() {
+				if e := recover(); e != nil {
+					res[g] = []string{fmt.Sprint("panic: ", e)}
+				}
+			}()
 			<-start
-			for i := range progs {
-				parser.ParseCommands(nil, "burst", progs[(i+g)%len(progs)])
-			}
-			env := interp.NewExecEnv("sim")
-			env.Set("y", []string{"abc", "2"}[g%2])
-			env.Set("z", "zz")
-			for i := range exprs {
-				env.Eval(exprs[(i+g)%len(exprs)])
-			}
+			res[g] = one(g)
 		}(g)
 	}
 	close(start)
 	wg.Wait()
+	for g := 0; g < G; g++ {
+		solo := one(g)
+		if len(solo) != len(res[g]) {
+			fmt.Fprintf(os.Stderr, "DIFF -2 caller %d of the concurrent burst: %d results, alone %d (%q)\n", g, len(res[g]), len(solo), clip(fmt.Sprint(res[g])))
+			continue
+		}
+		for i := range solo {
+			if solo[i] != res[g][i] {
+				fmt.Fprintf(os.Stderr, "DIFF -2 caller %d of the concurrent burst, result %d: %q, alone: %q\n", g, i, clip(res[g][i]), clip(solo[i]))
+				break
+			}
+		}
+	}
 }
